@@ -4,7 +4,7 @@
 WT=/tmp/wt/verify
 git -C /repo worktree remove --force $WT 2>/dev/null
 git -C /repo worktree add -q --detach $WT HEAD || exit 1
-for d in ${SEED_ROOT:-/tmp/seed_out}/C*/[a-h]; do
+for d in ${SEED_ROOT:-/tmp/seed_out}/C*/[a-i]; do
   id=$(basename $(dirname $d)); x=$(basename $d)
   p=$d/patch.diff; [ -f $d/patch_ported.diff ] && p=$d/patch_ported.diff
   cd $WT && git checkout -q -- . 
